@@ -57,6 +57,9 @@ func (e *DepEngine) walk(v ssa.Value, res DepSet, seen map[ssa.Value]bool) {
 	case *ssa.Alloc:
 		e.allocDeps(x, x, res, seen, 0)
 		return
+	case *ssa.MakeMap, *ssa.MakeSlice:
+		// contents of a locally built map / slice (falls through to the operands as well)
+		e.allocDeps(nil, x, res, seen, 0)
 	case *ssa.Call:
 		if sc := x.Call.StaticCallee(); sc != nil && sc.Blocks != nil && e.c.IsRepoFunc(sc) {
 			if sum, ok := e.summary(sc); ok {
@@ -115,7 +118,11 @@ func (e *DepEngine) allocDeps(root *ssa.Alloc, addr ssa.Value, res DepSet, seen 
 				e.walk(r.Value, res, seen)
 			}
 		case *ssa.MakeClosure:
-			// captured: whoever receives (or is) the closure may write the cell
+			// captured: if the closure body writes the cell, whoever receives (or is) the closure may write it,
+			// with values depending on what that callee is given and on the closure's other bindings
+			if !closureWrites(r, addr) {
+				continue
+			}
 			if r.Referrers() != nil {
 				for _, cr := range *r.Referrers() {
 					if ci, ok := cr.(ssa.CallInstruction); ok {
@@ -130,7 +137,6 @@ func (e *DepEngine) allocDeps(root *ssa.Alloc, addr ssa.Value, res DepSet, seen 
 					}
 				}
 			}
-			// and the closure body may store values depending on its other bindings
 			for _, b := range r.Bindings {
 				if b != addr {
 					e.walk(b, res, seen)
@@ -213,4 +219,32 @@ func ParamIndex(fn *ssa.Function, v ssa.Value) int {
 		}
 	}
 	return -1
+}
+
+// closureWrites: does the closure created by mc store into the free variable bound to cell?
+func closureWrites(mc *ssa.MakeClosure, cell ssa.Value) bool {
+	fn, ok := mc.Fn.(*ssa.Function)
+	if !ok {
+		return true
+	}
+	for i, b := range mc.Bindings {
+		if b != cell || i >= len(fn.FreeVars) {
+			continue
+		}
+		fv := fn.FreeVars[i]
+		if fv.Referrers() == nil {
+			continue
+		}
+		for _, ref := range *fv.Referrers() {
+			switch x := ref.(type) {
+			case *ssa.Store:
+				if x.Addr == ssa.Value(fv) {
+					return true
+				}
+			case *ssa.MakeClosure, ssa.CallInstruction, *ssa.FieldAddr, *ssa.IndexAddr:
+				return true // escapes further or is written through a derived address: assume written
+			}
+		}
+	}
+	return false
 }
